@@ -146,6 +146,7 @@ tpt_msg_recv_and_process(tp_event_p ev, tp_udata_p tp_udata) {
 			}
 			if (NULL == msg[i].msg_cb)
 				continue;
+			LIBLCB_VERIF_POINT("recv.run", tp_udata->tpt, msg[i].udata, msg[i].msg_cb);
 			msg[i].msg_cb(tp_udata->tpt, msg[i].udata);
 		}
 		if (sizeof(msg) > readed) /* All data read. */
@@ -162,11 +163,13 @@ tpt_msg_cb_done_proxy_cb(tpt_p tpt, void *udata) {
 	debugd_break_if(NULL == udata);
 
 	msg_data = udata;
+	LIBLCB_VERIF_POINT("done.begin", tpt, msg_data, 0);
 	msg_data->done_cb(tpt, msg_data->send_msg_cnt,
 	    msg_data->error_cnt, msg_data->udata);
 	if (0 == (TP_CBMSG_F_ONE_BY_ONE & msg_data->flags)) {
 		MTX_DESTROY(&msg_data->lock);
 	}
+	LIBLCB_VERIF_POINT("done.free", tpt, msg_data, 0);
 	free(msg_data);
 }
 
@@ -179,12 +182,15 @@ tpt_msg_active_thr_count_dec(tpt_msg_data_p msg_data, tpt_p src,
 	MTX_LOCK(&msg_data->lock);
 	msg_data->active_thr_count -= dec;
 	tm = msg_data->active_thr_count;
+	LIBLCB_VERIF_POINT("dec.locked", msg_data, src, tm);
 	MTX_UNLOCK(&msg_data->lock);
+	LIBLCB_VERIF_POINT("dec.unlocked", msg_data, src, tm);
 
 	if (0 != tm ||
 	    NULL == msg_data->done_cb)
 		return (tm); /* There is other alive threads. */
 	/* This was last thread, so we need do call back done handler. */
+	LIBLCB_VERIF_POINT("dec.postdone", msg_data, src, 0);
 	tpt_msg_send(msg_data->tpt, src,
 	    (TP_MSG_F_FAIL_DIRECT | TP_MSG_F_SELF_DIRECT),
 	    tpt_msg_cb_done_proxy_cb, msg_data);
@@ -199,6 +205,7 @@ tpt_msg_sync_proxy_cb(tpt_p tpt, void *udata) {
 	debugd_break_if(NULL == udata);
 
 	msg_data = udata;
+	LIBLCB_VERIF_POINT("sync.proxy", tpt, msg_data, 0);
 	msg_data->msg_cb(tpt, msg_data->udata);
 	tpt_msg_active_thr_count_dec(msg_data, tpt, 1);
 }
@@ -211,7 +218,9 @@ tpt_msg_one_by_one_proxy_cb(tpt_p tpt, void *udata) {
 	debugd_break_if(NULL == udata);
 
 	msg_data = udata;
+	LIBLCB_VERIF_POINT("obo.proxy", tpt, msg_data, 0);
 	msg_data->msg_cb(tpt, msg_data->udata);
+	LIBLCB_VERIF_POINT("obo.cbdone", tpt, msg_data, msg_data->cur_thr_idx);
 	/* Send to next thread. */
 	msg_data->cur_thr_idx ++;
 	if (0 == tpt_msg_one_by_one_send_next__int(tpt_get_tp(tpt), tpt, msg_data))
@@ -229,6 +238,7 @@ tpt_msg_one_by_one_proxy_cb(tpt_p tpt, void *udata) {
 		msg_data->send_msg_cnt --;
 		msg_data->error_cnt ++;
 	}
+	LIBLCB_VERIF_POINT("obo.finish", tpt, msg_data, 0);
 	/* Error / Done. */
 	tpt_msg_send(msg_data->tpt, tpt,
 	    (TP_MSG_F_FAIL_DIRECT | TP_MSG_F_SELF_DIRECT),
@@ -284,6 +294,7 @@ tpt_msg_send(tpt_p dst, tpt_p src, uint32_t flags,
 	msg_queue = tpt_get_msg_queue(dst);
 	if (NULL == msg_queue)
 		return (EINVAL);
+	LIBLCB_VERIF_POINT("send.enter", dst, udata, flags);
 	if (0 != (TP_MSG_F_SELF_DIRECT & flags)) {
 		if (NULL == src) {
 			src = tpt_get_current();
@@ -294,12 +305,14 @@ tpt_msg_send(tpt_p dst, tpt_p src, uint32_t flags,
 		}
 	}
 	if (0 == tpt_is_running(dst)) {
+		LIBLCB_VERIF_POINT("send.notrunning", dst, udata, flags);
 		if (0 == (TP_MSG_F_FORCE & flags))
 			return (EHOSTDOWN);
 		msg_cb(dst, udata);
 		return (0);
 	}
 
+	LIBLCB_VERIF_POINT("send.running", dst, udata, flags);
 	msg.magic = TPT_MSG_PKT_MAGIC;
 	msg.msg_cb = msg_cb;
 	msg.udata = udata;
@@ -307,6 +320,7 @@ tpt_msg_send(tpt_p dst, tpt_p src, uint32_t flags,
 	if (sizeof(msg) == write(msg_queue->fd[1], &msg, sizeof(msg)))
 		return (0);
 	/* Error. */
+	LIBLCB_VERIF_POINT("send.wfail", dst, udata, errno);
 	if (0 != (TP_MSG_F_FAIL_DIRECT & flags)) {
 		msg_cb(dst, udata);
 		return (0);
@@ -410,6 +424,7 @@ tpt_msg_bsend_ex(tp_p tp, tpt_p src, uint32_t flags,
 		msg_data->done_cb = NULL;
 		msg_cb = tpt_msg_sync_proxy_cb;
 		udata = msg_data;
+		LIBLCB_VERIF_POINT("bsend.init", msg_data, src, threads_max);
 	}
 
 	tm_cnt = tpt_msg_broadcast_send__int(tp, src, msg_data,
@@ -421,6 +436,7 @@ tpt_msg_bsend_ex(tp_p tp, tpt_p src, uint32_t flags,
 		rqts.tv_sec = 0;
 		rqts.tv_nsec = 10000000; /* 1 sec = 1000000000 nanoseconds */
 		tm_cnt = tpt_msg_active_thr_count_dec(msg_data, src, tm_cnt);
+		LIBLCB_VERIF_POINT("bsend.selfdec", msg_data, src, tm_cnt);
 		while (0 != tm_cnt) {
 			if (0 == (TP_BMSG_F_SYNC_USLEEP & flags)) {
 				sched_yield();
@@ -430,7 +446,9 @@ tpt_msg_bsend_ex(tp_p tp, tpt_p src, uint32_t flags,
 			MTX_LOCK(&msg_data->lock);
 			tm_cnt = msg_data->active_thr_count;
 			MTX_UNLOCK(&msg_data->lock);
+			LIBLCB_VERIF_POINT("bsend.wait", msg_data, src, tm_cnt);
 		}
+		LIBLCB_VERIF_POINT("bsend.return", msg_data, src, 0);
 		MTX_DESTROY(&msg_data->lock);
 	}
 	if (0 == msg_data_s.send_msg_cnt) {
@@ -506,6 +524,7 @@ tpt_msg_cbsend(tp_p tp, tpt_p src, uint32_t flags,
 	msg_data->flags = flags;
 	msg_data->tpt = src;
 	msg_data->done_cb = done_cb;
+	LIBLCB_VERIF_POINT("cbsend.init", msg_data, src, threads_max);
 
 	if (0 != (TP_CBMSG_F_ONE_BY_ONE & flags)) {
 		if (TP_MSG_F_SELF_DIRECT == ((TP_BMSG_F_SELF_SKIP | TP_MSG_F_SELF_DIRECT) & flags)) {
